@@ -146,7 +146,7 @@ def enum_table(prog, fn, enum_path, dest=0):
     return out
 
 
-def str_match_table(prog, fn, dest=0):
+def str_match_table(prog, fn, dest=0, want_adt=None):
     """for `match s { "lit" => X, ... }`: list of (literal, descriptor of arm result)"""
     S = Sym(prog, fn)
     out = []
@@ -173,5 +173,18 @@ def str_match_table(prog, fn, dest=0):
             if true_t is None:
                 continue
             res, _ = arm_result(prog, fn, S, true_t, dest)
+            if want_adt and not (res and want_adt in str(res)):
+                # the arm's value goes to a local first (`let c = match s { .. => X, .. }; Ok(c)`): the first aggregate of the wanted type on the arm's straight line
+                cur, steps = true_t, 0
+                while cur is not None and steps < 4:
+                    steps += 1
+                    bl = fn.blocks[cur]
+                    hit = [st for st in bl["stmts"] if st["rhs"]["rv"] == "agg" and (st["rhs"].get("adt") or "").endswith(want_adt)]
+                    if hit:
+                        res = ("variant", hit[0]["rhs"]["adt"], hit[0]["rhs"].get("variant"), [])
+                        res = "%s::%s{}" % (hit[0]["rhs"]["adt"], hit[0]["rhs"].get("variant"))
+                        break
+                    nx = fn.succs()[cur]
+                    cur = nx[0] if len(nx) == 1 else None
             out.append((lit, res))
     return out
